@@ -44,6 +44,7 @@ type xlFunc struct {
 	Fuel    []string // per `for` loop that is not a range loop, in source order: Go expression (evaluated in the scope right before the loop) bounding the number of iterations
 	Opaque  []string // callees ("pkg.Name") that are NOT translated: they become parameters of the generated definition
 	Flatten bool     // method on a pointer-to-struct receiver: every selector chain `recv.a.b` becomes a parameter `recv_a_b` (assumes the chain is non-nil)
+	Rec     bool     // directly self-recursive: leading Nat fuel, see translate_rec.go
 }
 
 var xlWhitelist = []xlFunc{
@@ -57,6 +58,9 @@ var xlWhitelist = []xlFunc{
 	{Pkg: "props", Name: "replaceAt", Lean: "replaceAt"},
 	{Pkg: "props", Name: "matchAt", Lean: "matchAt", Fuel: []string{"len(substring)+1"}},
 	{Pkg: "props", Recv: "propImpl", Name: "findEndIndex", Lean: "findEndIndex", Fuel: []string{"len(buf)+1"}, Flatten: true},
+	{Pkg: "props", Recv: "propImpl", Name: "resolvePlaceholder", Lean: "resolvePlaceholder", Flatten: true},
+	{Pkg: "props", Recv: "propImpl", Name: "resolve", Lean: "resolve", Fuel: []string{"len(value)+1"}, Flatten: true, Rec: true},
+	{Pkg: "props", Recv: "propImpl", Name: "Resolve", Lean: "Resolve", Flatten: true},
 	{Pkg: "patch", Recv: "PathSegment", Name: "IsNumeric", Lean: "IsNumeric"},
 	{Pkg: "patch", Recv: "Path", Name: "Parent", Lean: "PathParent"},
 	{Pkg: "patch", Recv: "Path", Name: "LastSegment", Lean: "PathLastSegment"},
@@ -96,9 +100,12 @@ type xlWorld struct {
 }
 
 type xlDone struct {
-	lean    string
-	monadic bool
-	nparams int
+	lean      string
+	monadic   bool
+	nparams   int
+	flatKeys  []string // flattened-receiver selector chains, in parameter order (translate_rec.go)
+	flatTypes []string
+	rec       bool
 }
 
 type xlImporter struct {
@@ -284,6 +291,8 @@ func (w *xlWorld) leanType(t types.Type) (string, error) {
 			return "", err
 		}
 		return "(Option " + e + ")", nil
+	case *types.Signature:
+		return w.sigType(x)
 	}
 	return "", fmt.Errorf("unsupported type %s", t.String())
 }
